@@ -105,9 +105,9 @@ def discharge(pc, goal, timeout_ms=10000):
         return "discharged", "z3-5.1(api)", dt, None
     if r == z3.sat:
         return "failed", "z3-5.1(api)", dt, s.model()
-    # portfolio on the SMT-LIB text
+    # portfolio on the SMT-LIB text (budgets sized so that a busy machine does not flip a verdict)
     q = "(set-option :produce-models true)\n" + s.to_smt2()
-    st, out, bk, dt2 = smt.run(q, "vc", timeout=30, order=["cvc5-1.0", "z3-4.8"])
+    st, out, bk, dt2 = smt.run(q, "vc", timeout=60, order=["z3-4.8", "z3-5.1", "cvc5-1.0"])
     if st == "unsat":
         return "discharged", bk, dt + dt2, None
     if st == "sat":
